@@ -63,6 +63,9 @@ class Prop:
             sc["first"] = ctx.new_source("cold", prefix="p", maxn=1, positive_first=True)
             sc["pool"] = [ctx.new_source("cold", prefix="p", maxn=1, positive_first=True) for _ in range(2)]
         sc["sources"] = ctx.sources
+        off = rng.choice([None, None, None, 37, 123, 411])
+        if off and "abs" not in form:
+            sc["sub2_t"] = 205 + off
         return sc
 
     def build(self, w, sc):
